@@ -117,11 +117,19 @@ def truncated_oscillator(omega, d, N):
     return h
 
 
+def mode_w(md, e):
+    """frequency of the mode in electronic state e: md["ws"][e] if the mode has its own
+    frequency in every electronic state, md["w"] otherwise"""
+    if md.get("ws") is not None:
+        return float(md["ws"][e])
+    return float(md["w"])
+
+
 def molecule_spectrum(elenergies, modes):
     """Reference spectrum of one molecule.
 
-    modes: list of dicts {"w": omega, "d": [shift per electronic state],
-    "n": [levels per electronic state]}.
+    modes: list of dicts {"w": omega (or "ws": [omega per electronic state]),
+    "d": [shift per electronic state], "n": [levels per electronic state]}.
     Returns (per-state list of sorted eigenvalues of the truncated model,
              per-state list of the sorted lowest levels of the untruncated ladder,
              per-state upper bound on the truncation excess of the lowest level,
@@ -132,7 +140,7 @@ def molecule_spectrum(elenergies, modes):
         ex = numpy.array([float(en)])
         gb = 0.0
         for md in modes:
-            w, d, N = float(md["w"]), float(md["d"][e]), int(md["n"][e])
+            w, d, N = mode_w(md, e), float(md["d"][e]), int(md["n"][e])
             lam = numpy.linalg.eigvalsh(truncated_oscillator(w, d, N))
             ev = numpy.add.outer(ev, lam).ravel()
             ex = numpy.add.outer(ex, w * (numpy.arange(N) + 0.5)).ravel()
@@ -166,7 +174,7 @@ def molecule_hamiltonian(elenergies, modes, sigma=1):
             size *= n
         B = float(en) * numpy.eye(size)
         for k, md in enumerate(modes):
-            h = truncated_oscillator(float(md["w"]), sigma * float(md["d"][e]), dims[k])
+            h = truncated_oscillator(mode_w(md, e), sigma * float(md["d"][e]), dims[k])
             left = 1
             for n in dims[:k]:
                 left *= n
@@ -190,7 +198,7 @@ def _lowest_ladder(en, modes, e, count):
     """count lowest values of en + sum_j w_j (k_j + 1/2), k_j >= 0."""
     if not modes:
         return numpy.array([float(en)])
-    ws = [float(md["w"]) for md in modes]
+    ws = [mode_w(md, e) for md in modes]
     wmin = min(ws)
     # a box that certainly contains the `count` lowest levels
     kmax = [int(numpy.ceil(count * wmin / w)) + 1 for w in ws]
@@ -201,16 +209,21 @@ def _lowest_ladder(en, modes, e, count):
 
 
 # --------------------------------------------------------------------------
-# aggregates of two-level molecules with modes
+# aggregates of molecules (two electronic levels by default) with modes
 # --------------------------------------------------------------------------
-def el_signatures(nmol, mult):
-    """All electronic signatures of two-level molecules with at most `mult`
-    excitations (as a set-like sorted list)."""
-    sigs = []
-    for m in range(0, mult + 1):
-        for exc in itertools.combinations(range(nmol), m):
-            sigs.append(tuple(1 if i in exc else 0 for i in range(nmol)))
-    return sigs
+def el_signatures(nmol, mult, nlev=None):
+    """All electronic signatures with at most `mult` excitations (as a set-like sorted
+    list).  Two-level molecules by default; nlev = number of electronic levels of every
+    molecule: molecule i can be in level 0..nlev[i]-1, the number of excitations of a
+    signature is the sum of its levels."""
+    if nlev is None or all(int(n) == 2 for n in nlev):
+        sigs = []
+        for m in range(0, mult + 1):
+            for exc in itertools.combinations(range(nmol), m):
+                sigs.append(tuple(1 if i in exc else 0 for i in range(nmol)))
+        return sigs
+    allsigs = itertools.product(*[range(int(n)) for n in nlev])
+    return sorted((s for s in allsigs if sum(s) <= mult), key=lambda s: (sum(s), s))
 
 
 def state_count(spec, elsig):
@@ -242,23 +255,48 @@ def el_coupling(spec, ea, eb, full=False):
       interaction, which the package includes on request: build(fem_full=True) /
       coupling(.., full=True)).
 
-    Everything else is zero."""
+    Everything else is zero.  Pairs in which a differing molecule is in its second or a
+    higher excited level have no electronic quantity defined by the inputs (one resonance
+    coupling per pair of molecules is declared, that of the 0-1 transitions): 0 is returned
+    and el_coupling_defined() says so."""
     if ea == eb:
         return 0.0
     diff = [i for i in range(len(ea)) if ea[i] != eb[i]]
     if len(diff) != 2:
         return 0.0
     k, l = diff
+    if max(ea[k], eb[k], ea[l], eb[l]) > 1:
+        return 0.0
     if sum(ea) == sum(eb) or (full and abs(sum(ea) - sum(eb)) == 2):
         return float(spec["J"][k][l])
     return 0.0
 
 
-def el_dipole(spec, ea, eb):
+def el_coupling_defined(ea, eb):
+    """False for the pairs of signatures that differ on exactly two molecules one of which
+    is in its second or a higher excited level (see el_coupling)."""
     diff = [i for i in range(len(ea)) if ea[i] != eb[i]]
-    if len(diff) != 1 or abs(sum(ea) - sum(eb)) != 1:
+    if len(diff) != 2:
+        return True
+    k, l = diff
+    return max(ea[k], eb[k], ea[l], eb[l]) <= 1
+
+
+def el_dipole(spec, ea, eb):
+    """Electronic transition dipole between two signatures: they differ on exactly one
+    molecule k, which goes from level a to level b; the dipole is the one declared for the
+    transition a <-> b of that molecule (mol["dips"]["a-b"], a < b; two-level molecules:
+    mol["dip"] for 0 <-> 1), for |a - b| = 1 or 2; zero otherwise."""
+    diff = [i for i in range(len(ea)) if ea[i] != eb[i]]
+    if len(diff) != 1 or abs(sum(ea) - sum(eb)) not in (1, 2):
         return numpy.zeros(3)
-    return numpy.array(spec["mols"][diff[0]]["dip"], dtype=float)
+    mol = spec["mols"][diff[0]]
+    a, b = sorted((int(ea[diff[0]]), int(eb[diff[0]])))
+    if mol.get("dips") is not None:
+        return numpy.array(mol["dips"].get("%d-%d" % (a, b), [0.0, 0.0, 0.0]), dtype=float)
+    if (a, b) != (0, 1):
+        return numpy.zeros(3)
+    return numpy.array(mol["dip"], dtype=float)
 
 
 def fc_block(spec, ea, eb, sigma=1):
